@@ -5,6 +5,7 @@
 package sm
 
 import (
+	"context"
 	"errors"
 	"fmt"
 	"net"
@@ -241,6 +242,10 @@ func (cli *Client) handshake(c diam.Conn) (diam.Conn, error) {
 		case <-time.After(cli.RetransmitInterval):
 		}
 	}
+	// The client gives this connection up. A success CEA that the reader
+	// still finds (it may be stuck writing, with the CEA in its buffer) must
+	// not open it for the application's handlers: mark it like a refusal.
+	c.SetContext(context.WithValue(c.Context(), refusedKey{}, true))
 	c.Close()
 	return nil, ErrHandshakeTimeout
 }
